@@ -713,6 +713,19 @@ class Interp:
                     rec = self.new_record(ct) if ct in self.prog.classes else {'__cls__': ct, '__open__': True}
                     self._keep.append(rec)
                     env[d['d']] = self.ref(rec)
+                elif '[' in ct and ('init' not in d or ((f.s(d['init']) or {}).get('k') == 'CXXConstructExpr' and not (f.s(d['init']) or {}).get('args'))) and ct.split('[')[0].replace('struct ', '').strip() not in WIDTH and '*' not in ct.split('[')[0] and ct.split('[')[1].split(']')[0].isdigit():
+                    # an array of records (struct iovec rbuf[2]): each cell refers to a record of its own
+                    n = int(ct.split('[')[1].split(']')[0])
+                    elem = ct.split('[')[0].replace('struct ', '').strip()
+                    self._tmp += 1
+                    name = 'local:%s#%d' % (d['n'], self._tmp)
+                    cells = []
+                    for _ in range(n):
+                        r_ = self.new_record(elem) if elem in self.prog.classes else {'__cls__': elem, '__open__': True}
+                        self._keep.append(r_)
+                        cells.append(self.ref(r_))
+                    self.mem[name] = cells
+                    env[d['d']] = P(name, 0)
                 elif '[' in ct and 'init' not in d:
                     n = int(ct.split('[')[1].split(']')[0])
                     self._tmp += 1
